@@ -231,15 +231,21 @@ def run_case(spec, export):
             if st == "raised":
                 return fail("raised", f"raised {info}")
             files = sorted(os.listdir(out)) if os.path.isdir(out) else []
-            names = {n: sanitize_model(n) + ".csv" for n in want_flows}
-            assert len(set(names.values())) == len(names), "precondition: names distinct after sanitising"
-            if files != sorted(names.values()):
-                return fail("files", f"files {files}, expected one per flow: {sorted(names.values())}")
+            if len(files) != len(want_flows):
+                return fail("files", f"{len(files)} file(s) {files} for {len(want_flows)} flows (one CSV file per flow)")
+            # file names are not part of the property: match files to flows by content (values are distinct per flow)
+            unmatched = list(files)
             for n, (letters, data, _) in want_flows.items():
-                df = pd.read_csv(os.path.join(out, names[n]))
-                st, back = attempt(lambda: FlodymArray.from_df(dims=mfa.flows[n].dims, df=df))
-                if st == "raised" or by_label(back.values, letters) != data:
-                    return fail("flow-values", f"flow {n!r}: file {names[n]} does not re-import into the identical array ({back if st == 'raised' else 'values differ'})")
+                hit = None
+                for fn in unmatched:
+                    df = pd.read_csv(os.path.join(out, fn))
+                    st, back = attempt(lambda: FlodymArray.from_df(dims=mfa.flows[n].dims, df=df))
+                    if st == "ok" and by_label(back.values, letters) == data:
+                        hit = fn
+                        break
+                if hit is None:
+                    return fail("flow-values", f"flow {n!r}: none of the files {files} re-imports into the identical array")
+                unmatched.remove(hit)
         else:
             with_io = export == "stocks-csv-io"
             out = os.path.join(tmp, "stocks")
@@ -248,21 +254,22 @@ def run_case(spec, export):
                 return fail("raised", f"raised {info}")
             files = sorted(os.listdir(out)) if os.path.isdir(out) else []
             qs = ("stock", "inflow", "outflow") if with_io else ("stock",)
-            want_files = {}
-            for n in want_stocks:
-                for q in qs:
-                    want_files[(n, q)] = f"{sanitize_model(n)}_{q}.csv"
-            if len(files) != len(want_files):
-                return fail("files", f"{len(files)} file(s) {files} for {len(want_files)} exported stock quantities")
-            for (n, q), fn in want_files.items():
+            wanted = [(n, q) for n in want_stocks for q in qs]
+            if len(files) != len(wanted):
+                return fail("files", f"{len(files)} file(s) {files} for {len(wanted)} exported stock quantities (one CSV file per quantity)")
+            unmatched = list(files)
+            for n, q in wanted:
                 letters, data = want_stocks[n][q]
-                path = os.path.join(out, fn)
-                if not os.path.exists(path):
-                    return fail("files", f"no file {fn} for {q} of stock {n!r}; files: {files}")
-                df = pd.read_csv(path)
-                st, back = attempt(lambda: FlodymArray.from_df(dims=getattr(mfa.stocks[n], q).dims, df=df))
-                if st == "raised" or by_label(back.values, letters) != data:
-                    return fail("stock-values", f"{q} of stock {n!r}: file {fn} does not hold exactly its values")
+                hit = None
+                for fn in unmatched:
+                    df = pd.read_csv(os.path.join(out, fn))
+                    st, back = attempt(lambda: FlodymArray.from_df(dims=getattr(mfa.stocks[n], q).dims, df=df))
+                    if st == "ok" and by_label(back.values, letters) == data:
+                        hit = fn
+                        break
+                if hit is None:
+                    return fail("stock-values", f"{q} of stock {n!r}: none of the files {files} holds exactly its values")
+                unmatched.remove(hit)
     finally:
         shutil.rmtree(tmp, ignore_errors=True)
     if snapshot(mfa) != before:
